@@ -338,6 +338,12 @@ impl Feig {
     //@ tag cancel_pending.shape C19
             cp_shape(final(self).socket.log().skip(old(self).socket.log().len() as int), old(self).socket.cfg()),
             r == cp_result(final(self).socket.log().skip(old(self).socket.log().len() as int)),
+    //@ tag cancel_pending.abort_surfaces C20
+            // an abort of the reversal of the dangling pre-authorisation is returned with its code
+            ({
+                let exs = final(self).socket.log().skip(old(self).socket.log().len() as int);
+                (cp_len(exs) == 2 && exs.len() >= 2) ==> (exs[1].items matches AnyItems::PreAuthReversal(its_b) ==> (pr_clean_abort(its_b, true) matches Some(c) ==> r == Result::<()>::Err(aborted(c))))
+            }),
     //@ loop 0
             invariant
                 pending@.len() <= 1, iter.index@ <= pending@.len(),
@@ -352,6 +358,12 @@ impl Feig {
                 iter.index@ == 1 ==> (self.socket.log().last().items matches AnyItems::PreAuthReversal(its_b) && cancel_fold(its_b) == Result::<()>::Ok(())),
     //@ tag cancel_pending.inv.clean C09
                 clean(old(self)) ==> clean(self),
+    //@ tail
+            proof {
+                if pending@.len() == 1 {
+                    match self.socket.log().last().items { AnyItems::PreAuthReversal(its_b) => { lemma_cancel_clean_abort(its_b); }, _ => {} }
+                }
+            }
     //@ end
 
     //@ fn src:zvt_feig_terminal/src/feig.rs | impl Feig | end_of_day | all-loops nexton=self.socket props=~C19,~C20,~C07
@@ -367,6 +379,13 @@ impl Feig {
             eod_shape(final(self).socket.log().skip(old(self).socket.log().len() as int), old(self).socket.cfg()),
     //@ tag end_of_day.result ~C19 ~C20
             r == eod_result(final(self).socket.log().skip(old(self).socket.log().len() as int)),
+    //@ tag end_of_day.cleanup_error_is_returned C20 C19
+            // whatever the clean-up part fails with (cancel_pending states: an aborted reversal => that abort code) is returned
+            // unchanged, whatever the terminal answers afterwards
+            ({
+                let exs = final(self).socket.log().skip(old(self).socket.log().len() as int);
+                cp_result(exs.take(cp_len(exs))) is Err ==> r == cp_result(exs.take(cp_len(exs)))
+            }),
     //@ tag end_of_day.refusal_reported C19 C20
             // when the end-of-day request itself is refused with code c: A0 'receiver not ready' is tolerated, any other code is reported
             ({
@@ -381,8 +400,12 @@ impl Feig {
                 self.socket.cfg() == old(self).socket.cfg(),
                 extends(self.socket.log(), old(self).socket.log()),
                 self.socket.log().len() >= old(self).socket.log().len() + 2,
+    //@ tag end_of_day.inv.only_after_successful_cleanup C19 C20
+                // the end-of-day request is only sent after the clean-up part completed without an error (so a failed
+                // clean-up - e.g. an aborted reversal - has already been returned with its code)
                 cp_shape(self.socket.log().skip(old(self).socket.log().len() as int).drop_last(), old(self).socket.cfg()),
                 cp_result(self.socket.log().skip(old(self).socket.log().len() as int).drop_last()) == Result::<()>::Ok(()),
+    //@ tag end_of_day.inv.len ~C19 ~C20 ~C07
                 cp_len(self.socket.log().skip(old(self).socket.log().len() as int)) == self.socket.log().len() - old(self).socket.log().len() - 1,
                 self.socket.log().last().req matches Req::EndOfDay(q) && eod_req(q, old(self).socket.cfg()),
     //@ tag end_of_day.inv.fold ~C19 ~C20
